@@ -556,6 +556,9 @@ func poisonFamily(e *hk.Env, r *hk.Rng) (trees, logs, bad int) {
 		after := len(probe) - before - len(attrVal(1000, 0))
 		for i, pd := range criticalPads(before, after, e.Thorough()) {
 			for variant := 0; variant < 2; variant++ {
+				if raceEnabled && !e.Thorough() && variant != i%2 {
+					continue // the race-built quick run alternates; the non-race run of the check does both
+				}
 				if variant == 1 {
 					runtime.GOMAXPROCS(1)
 					debug.SetGCPercent(-1)
@@ -662,6 +665,9 @@ func run(e *hk.Env) error {
 	for _, k := range lg.Kinds {
 		for _, pd := range pads {
 			for shape := 0; shape < 4; shape++ {
+				if shape >= 2 && pd%2 == 1 && !e.Thorough() {
+					continue
+				}
 				for pair := 0; pair < 4; pair++ {
 					p := newPlan(k, fmt.Sprintf("siblings shape=%d pair=%d pad=%d", shape, pair, pd), r)
 					base := 0
@@ -813,6 +819,14 @@ func run(e *hk.Env) error {
 
 // ---------------------------------------------------------------------------------------------- With == call site
 
+type plainSink struct{ lg.Capture }
+
+func (s *plainSink) chunks() [][]byte { return s.Chunks }
+
+type fdSink struct{ lg.FdCapture }
+
+func (s *fdSink) chunks() [][]byte { return s.Chunks }
+
 type lv struct{ v slog.Value }
 
 func (l lv) LogValue() slog.Value { return l.v }
@@ -846,6 +860,9 @@ func genAttr(r *hk.Rng, depth int, n *int) slog.Attr {
 	case 8:
 		return slog.Any(key, lv{slog.StringValue("lazy" + strconv.Itoa(r.Intn(100)))})
 	case 9:
+		if r.Chance(40) {
+			return slog.Any(key, logger.AnsiString{Prefix: "\x1b[3" + strconv.Itoa(1+r.Intn(6)) + "m", Value: "c" + strconv.Itoa(r.Intn(100))})
+		}
 		return slog.Uint64(key, uint64(r.Intn(1000)))
 	case 10, 11: // keyed non-empty group
 		return slog.Attr{Key: key, Value: slog.GroupValue(genAttrs(r, 1+r.Intn(3), depth-1, n)...)}
@@ -950,19 +967,42 @@ func callsite(e *hk.Env, r *hk.Rng) (int, int) {
 	}
 	n, bad, nid := 0, 0, 0
 	hist := map[string]int{}
+	// the destination is a plain io.Writer or one with an Fd() method (a file that is not a terminal); colour on or off
+	type sink interface {
+		io.Writer
+		chunks() [][]byte
+	}
+	mkSink := func(fd bool) sink {
+		if fd {
+			return &fdSink{}
+		}
+		return &plainSink{}
+	}
+	solo := func(k lg.Kind, colour, fd bool, chain []lg.Step, rec slog.Record) ([]byte, bool) {
+		w := mkSink(fd)
+		h := lg.Apply(lg.NewHandlerOpts(k, w, logger.LevelInfo, colour, false), chain)
+		if err := lg.Handle(h, rec); err != nil || len(w.chunks()) != 1 {
+			return bytes.Join(w.chunks(), nil), false
+		}
+		return w.chunks()[0], true
+	}
 	one := func(k lg.Kind, px prefix, a, b []slog.Attr, src string) {
 		n++
 		hist[src]++
 		msg := lg.Msg(n)
+		colour, fd := n%4 >= 2, n%2 == 1
+		if strings.HasPrefix(src, "ansi") {
+			colour, fd = n%4 < 2, n%2 == 1
+		}
 		ab := append(append([]slog.Attr(nil), a...), b...)
 		// handler level, fixed time: byte for byte
-		w1, ok1 := lg.Solo(k, logger.LevelInfo, append(append([]lg.Step(nil), px.chain...), with(a...)), lg.NewRecord(logger.LevelInfo, msg, b...))
-		w2, ok2 := lg.Solo(k, logger.LevelInfo, px.chain, lg.NewRecord(logger.LevelInfo, msg, ab...))
+		w1, ok1 := solo(k, colour, fd, append(append([]lg.Step(nil), px.chain...), with(a...)), lg.NewRecord(logger.LevelInfo, msg, b...))
+		w2, ok2 := solo(k, colour, fd, px.chain, lg.NewRecord(logger.LevelInfo, msg, ab...))
 		eq := ok1 && ok2 && bytes.Equal(w1, w2)
 		// Logger level: root.With(a…).Info(m, b…) against root.Info(m, a…, b…); time blanked
-		var c1, c2 lg.Capture
-		l1 := logger.New(lg.Apply(lg.NewHandler(k, &c1, logger.LevelInfo), px.chain))
-		l2 := logger.New(lg.Apply(lg.NewHandler(k, &c2, logger.LevelInfo), px.chain))
+		s1, s2 := mkSink(fd), mkSink(fd)
+		l1 := logger.New(lg.Apply(lg.NewHandlerOpts(k, s1, logger.LevelInfo, colour, false), px.chain))
+		l2 := logger.New(lg.Apply(lg.NewHandlerOpts(k, s2, logger.LevelInfo, colour, false), px.chain))
 		func() {
 			defer func() { recover() }()
 			if n%2 == 0 {
@@ -973,7 +1013,8 @@ func callsite(e *hk.Env, r *hk.Rng) (int, int) {
 				l2.LogAttrs(context.Background(), logger.LevelWarn, msg, ab...)
 			}
 		}()
-		eqL := len(c1.Chunks) == 1 && len(c2.Chunks) == 1 && bytes.Equal(lg.NormTime(k, c1.Chunks[0]), lg.NormTime(k, c2.Chunks[0]))
+		c1, c2 := s1.chunks(), s2.chunks()
+		eqL := len(c1) == 1 && len(c2) == 1 && bytes.Equal(lg.NormTime(k, c1[0]), lg.NormTime(k, c2[0]))
 		f := 0
 		if eq && eqL {
 			f = 1
@@ -984,9 +1025,9 @@ func callsite(e *hk.Env, r *hk.Rng) (int, int) {
 			if bad <= 6 {
 				x1, x2 := w1, w2
 				if eq {
-					x1, x2 = bytes.Join(c1.Chunks, nil), bytes.Join(c2.Chunks, nil)
+					x1, x2 = bytes.Join(c1, nil), bytes.Join(c2, nil)
 				}
-				e.Case("VIOL", "callsite", "kind="+k.String(), "prefix="+strings.ReplaceAll(px.name, " ", ""), "with=["+strings.ReplaceAll(describeAttrs(a), " ", "_")+"]",
+				e.Case("VIOL", "callsite", "kind="+k.String(), fmt.Sprintf("colour=%v", colour), fmt.Sprintf("writer-has-Fd=%v", fd), "prefix="+strings.ReplaceAll(px.name, " ", ""), "with=["+strings.ReplaceAll(describeAttrs(a), " ", "_")+"]",
 					"call=["+strings.ReplaceAll(describeAttrs(b), " ", "_")+"]", "with_line="+hk.Hx(clipb(x1)), "callsite_line="+hk.Hx(clipb(x2)))
 			}
 		}
@@ -999,6 +1040,20 @@ func callsite(e *hk.Env, r *hk.Rng) (int, int) {
 			for _, a := range fixedA {
 				for _, b := range fixedB {
 					one(k, px, a, b, "fixed (named group then plain attrs; groups without members)")
+				}
+			}
+		}
+	}
+	// coloured values: AnsiString in With and at the call site, colour on/off, destination with and without Fd()
+	ansiA := [][]slog.Attr{
+		{slog.Any("tag", logger.AnsiString{Prefix: "\x1b[34m", Value: "REQ"}), slog.String("user", "bob")},
+		{grp("req", slog.Any("tag", logger.AnsiString{Prefix: "\x1b[31m", Value: "E"})), slog.Int("n", 1)},
+	}
+	for _, k := range lg.Kinds {
+		for _, px := range prefixes {
+			for _, a := range ansiA {
+				for rep := 0; rep < 4; rep++ {
+					one(k, px, a, fixedB[rep%len(fixedB)], "ansi values x colour x Fd-writer")
 				}
 			}
 		}
